@@ -22,13 +22,22 @@ type episodicDst struct {
 	buf    bytes.Buffer
 	refuse bool
 	err    error
+	other  []byte // a whole frame another writer of the same connection sends between two Write calls
+	others int
 }
 
 func (d *episodicDst) Write(p []byte) (int, error) {
 	if d.refuse {
 		return 0, d.err
 	}
-	return d.buf.Write(p)
+	n, err := d.buf.Write(p)
+	if d.other != nil {
+		// the connection is shared: another goroutine of the application sends its own (whole) frame with one
+		// Write call of its own, as soon as this Write call has returned
+		d.buf.Write(d.other)
+		d.others++
+	}
+	return n, err
 }
 
 func subLongLived() mon.Sub {
@@ -69,8 +78,42 @@ func subLongLived() mon.Sub {
 				dst.err = kind.Err
 				before := dst.buf.Len()
 				c.Count(1)
-				err := h(ws.Header{Fin: true, OpCode: ws.OpCode(op), Length: int64(L)}, bytes.NewReader(p))
+				// one ping in three is answered while ANOTHER writer uses the connection (net.Conn serialises Write
+				// calls, not frames): its whole frames may land between this handler's Write calls
+				shared := op == ref.OpPing && !dst.refuse && c.Rng.Intn(3) == 0
+				dst.other, dst.others = nil, 0
+				if shared {
+					dst.other = ref.Frame{H: ref.Header{Fin: true, Op: ref.OpBinary}, Payload: []byte("app-frame")}.Encode()
+				}
+				var err error
+				if c.Rng.Intn(2) == 0 {
+					err = h(ws.Header{Fin: true, OpCode: ws.OpCode(op), Length: int64(L)}, bytes.NewReader(p))
+				} else {
+					// (the message-level entry: the control message was collected by ReadMessage and is answered now)
+					err = wsutil.HandleControlMessage(dst, st, wsutil.Message{OpCode: ws.OpCode(op), Payload: append([]byte(nil), p...)})
+				}
+				dst.other = nil
 				out := append([]byte(nil), dst.buf.Bytes()[before:]...)
+				if shared {
+					// what the peer receives is whole frames: this handler's pong and the other writer's frames
+					frames, consumed, bad := ref.ParseFrames(out)
+					var mine []byte
+					pongs, apps := 0, 0
+					for _, f := range frames {
+						if f.H.Op == ref.OpPong {
+							pongs++
+							mine = f.Payload
+						} else if f.H.Op == ref.OpBinary && string(f.Payload) == "app-frame" {
+							apps++
+						}
+					}
+					if bad != "" || consumed != len(out) || pongs != 1 || apps != dst.others || !bytes.Equal(mine, p) {
+						hist = append(hist, fmt.Sprintf("frame %d: a %d-byte ping answered on a shared connection -> % x", i, L, out))
+						c.Fail("long-lived/reply-torn-by-another-writer", fmt.Sprintf("a pong sent while another writer of the same connection sends whole frames (one Write call each) does not reach the peer as one frame: %d frames parsed (%s), %d pongs, %d of %d other frames intact", len(frames), bad, pongs, apps, dst.others), map[string]interface{}{"side": sideName(side), "history": hist})
+						return
+					}
+					continue
+				}
 				hist = append(hist, fmt.Sprintf("frame %d: op=%x len=%d refused=%v(%s) -> err=%v, %d bytes sent", i, op, L, dst.refuse, kind.Name, err, len(out)))
 				det := map[string]interface{}{"side": sideName(side), "history": hist}
 				expectReply := op == ref.OpPing || op == ref.OpClose
